@@ -505,7 +505,7 @@ func mkP(op opcode, s ssort, p0, p1 int, name string, args ...*term) *term {
 	}
 	// signed division and remainder of operands that are non-negative by range are the unsigned ones (which the
 	// rules below can narrow)
-	if (op == oSDiv || op == oSRem) && len(args) == 2 && (s == sBV64 || s == bvSort(32)) {
+	if !disableIntFloat && (op == oSDiv || op == oSRem) && len(args) == 2 && (s == sBV64 || s == bvSort(32)) {
 		al, _, ok1 := args[0].bvRange()
 		bl, _, ok2 := args[1].bvRange()
 		if ok1 && ok2 && al >= 0 && bl >= 1 {
@@ -518,7 +518,7 @@ func mkP(op opcode, s ssort, p0, p1 int, name string, args ...*term) *term {
 	// x / k and x % k with 0 <= x < k by range: 0 and x.  (C + x) / k and (C + x) % k with a large constant C (seconds
 	// since an epoch split into a concrete day and a symbolic second, say): C/k + (r + x)/k and (r + x) % k with
 	// r = C mod k, valid when C + x cannot wrap; the remaining operands are small and are narrowed below.
-	if (op == oUDiv || op == oURem) && s == sBV64 && len(args) == 2 && args[1].isConst() && args[1].bits != 0 && !args[0].isConst() {
+	if !disableIntFloat && (op == oUDiv || op == oURem) && s == sBV64 && len(args) == 2 && args[1].isConst() && args[1].bits != 0 && !args[0].isConst() {
 		k := args[1].bits
 		if lo, hi, okr := args[0].bvRange(); okr && lo >= 0 && uint64(hi) < k {
 			if op == oUDiv {
@@ -541,7 +541,7 @@ func mkP(op opcode, s ssort, p0, p1 int, name string, args ...*term) *term {
 	}
 	// unsigned division, remainder and multiplication of 64-bit terms whose values provably fit a narrower
 	// width are done at that width (the bit-blasted circuit shrinks quadratically)
-	if (op == oUDiv || op == oURem || op == oMul) && (s == sBV64 || s == bvSort(32)) && len(args) == 2 && !(args[0].isConst() && args[1].isConst()) {
+	if !disableIntFloat && (op == oUDiv || op == oURem || op == oMul) && (s == sBV64 || s == bvSort(32)) && len(args) == 2 && !(args[0].isConst() && args[1].isConst()) {
 		al, ah, ok1 := args[0].bvRange()
 		bl, bh, ok2 := args[1].bvRange()
 		if ok1 && ok2 && al >= 0 && bl >= 0 && (op == oMul || bl >= 1) {
@@ -685,7 +685,7 @@ func mkP(op opcode, s ssort, p0, p1 int, name string, args ...*term) *term {
 			return args[1]
 		}
 		// the constant of a sum goes last, so that nested constants meet and fold below
-		if op == oAdd && args[0].isConst() && !args[1].isConst() {
+		if !disableIntFloat && op == oAdd && args[0].isConst() && !args[1].isConst() {
 			return mk(oAdd, s, args[1], args[0])
 		}
 		// (x + c1) + c2 => x + (c1+c2)
@@ -1287,7 +1287,7 @@ func intFloatSimplify(op opcode, s ssort, p0 int, args []*term) *term {
 	case oFLt, oFLe, oFEq:
 		a, ok1 := asIntFloat(args[0])
 		b, ok2 := asIntFloat(args[1])
-		if !ok1 && !ok2 && op != oFEq {
+		if op != oFEq && (!ok1 || args[0].isConst()) && (!ok2 || args[1].isConst()) {
 			// (integer-valued float + fraction) against a constant: decided by range when possible
 			for i := 0; i < 2; i++ {
 				if it, c, ok := intPlusFraction(args[i]); ok && args[1-i].isConst() {
